@@ -77,7 +77,7 @@ func Attribute(r *Result) *Attribution {
 		// a request can only have produced an entry that carries its key
 		var filtered []int
 		for _, i := range cands {
-			if r.Plan.Ops[i].IK == e.Log.IdempotencyKey && !r.Plan.Ops[i].DryRun && r.Responses[i] != nil {
+			if StoredKey(r.Plan.Ops[i].IK) == e.Log.IdempotencyKey && !r.Plan.Ops[i].DryRun && r.Responses[i] != nil {
 				filtered = append(filtered, i)
 			}
 		}
@@ -225,11 +225,15 @@ func CheckChain(r *Result) *Verdict {
 // ---------------------------------------------------------------------------
 // C06: acknowledged <=> persisted, exactly once
 
+// StoredKey is an idempotency key as log entries hold it: entries are kept as JSON, which has no way to spell bytes
+// that are not valid UTF-8 (each run of them reads U+FFFD there).
+func StoredKey(k string) string { return strings.ToValidUTF8(k, "\uFFFD") }
+
 func ikGroups(r *Result) map[string][]int {
 	g := map[string][]int{}
 	for i, op := range r.Plan.Ops {
 		if op.IK != "" {
-			g[op.IK] = append(g[op.IK], i)
+			g[StoredKey(op.IK)] = append(g[StoredKey(op.IK)], i)
 		}
 	}
 	return g
@@ -504,7 +508,7 @@ func CheckReferences(r *Result) *Verdict {
 					just = true
 				}
 				// ... or its idempotency key belongs to a write of another kind (refused with the same class)
-				if j != i && op.IK != "" && other.IK == op.IK && other.Kind != op.Kind && r.Responses[j] != nil && r.SpawnStep[j] <= resp.Step {
+				if j != i && op.IK != "" && StoredKey(other.IK) == StoredKey(op.IK) && other.Kind != op.Kind && r.Responses[j] != nil && r.SpawnStep[j] <= resp.Step {
 					just = true
 				}
 			}
